@@ -12,7 +12,7 @@ import ibldsp.fourier as F
 import ibldsp.smooth as SM
 import ibldsp.spiketrains as ST
 import ibldsp.voltage as V
-from pyvc.api import harness, bounded, property_meta, run_function
+from pyvc.api import harness, bounded, property_meta, run_function, depends
 from pyvc.core import SV, term, fresh_name
 from pyvc import arrays as A
 
@@ -626,3 +626,6 @@ def h_stack(H):
             it.ctx.oblige("stack.row_written", A.forall([r, t], lambda: z3.Implies(z3.And(r >= 0, r < m, t >= 0, t < ns, r != k), st.read((r, t)) == s0((r, t)))), "post", "only row k of the stack is written in iteration k", assume=False)
         it.ctx.oblige("stack.input_untouched", A.forall([z3.Int("i"), z3.Int("t")], lambda: z3.Implies(z3.And(z3.Int("i") >= 0, z3.Int("i") < ntr, z3.Int("t") >= 0, z3.Int("t") < ns), data.read((z3.Int("i"), z3.Int("t"))) == d0((z3.Int("i"), z3.Int("t"))))), "post", assume=False)
     S.explore(body)
+
+
+depends(PROPERTY, "C18", ["filters", "filters_3d_axis0"])      # smooth.lp crops what fourier.lp returns: the filter keeps the shape of its input and works along the requested axis
